@@ -17,10 +17,13 @@ func VxH18join() {
 	vxSetEnv("SCIPIPE_BUFSIZE", "1") // sub-streams longer than the channel buffer
 	seps := []string{" ", ",", ":"}
 	sep := seps[vxChoice("sep", len(seps))]
-	mod := vxChoice("mod", 2) // 1: with a %suffix modifier after the join modifier
+	mod := vxChoice("mod", 3) // 1 / 2: with a %suffix modifier after / before the join modifier
 	pat := "cat {i:in|join:" + sep + "} > {o:out}"
 	if mod == 1 {
 		pat = "cat {i:in|join:" + sep + "|%.t} > {o:out}"
+	}
+	if mod == 2 {
+		pat = "cat {i:in|%.t|join:" + sep + "} > {o:out}"
 	}
 	wf := newWorkflowWithoutLogging("w", 4)
 	p := NewProc(wf, "p", pat)
@@ -56,13 +59,13 @@ func VxH18join() {
 			exp += sep
 		}
 		v, alt := m, m
-		if mod == 1 {
+		if mod >= 1 {
 			v, alt = vxRefTrim(m, ".t"), vxRefTrimAlt(m, ".t")
 			_ = alt
 		}
 		exp += vxRefPrefix(v)
 	}
-	if mod == 1 {
+	if mod >= 1 {
 		// whole-value suffixes are excluded here to keep one admissible outcome
 		for _, m := range members {
 			vxAssume(m != ".t")
